@@ -44,6 +44,7 @@ CASE_TYPES = {
     "chk_unsorted": "list (list Q) * list (list nat) * Q * Q * Q * list yield",
     "chk_weights": "list (list Q) * list (list nat) * num * list nat * (Q * Q * Q) * res wdict * list (nat * nat * list Q)",
     "chk_public": "list (list Q) * list (list nat) * num * list nat * (Q * Q * Q) * res wdict",
+    "chk_public_coeffs": "list (list Q) * list (list nat) * num * list nat * (Q * Q * Q) * res wdict",
     "chk_public_set": "list (list Q) * list (list nat) * num * list nat * (Q * Q * Q) * res wdict",
     "chk_expected": "list (list Q) * list (list nat) * num * Q * list (key * Q)",
 }
@@ -782,8 +783,9 @@ def gen_public(rng, tier, w, n):
         else:
             items, exp, impl = [], Res(r[0]), [r[0], r[1]]
         tl = tols_for(N, stub.calls)
-        w.add("public", "chk_public",
-              (coq_probs(probs), perms, coq_num(N), list(stub.tape), tuple(cq(t) for t in tl), exp),
+        coeffs = [[x * sc * sg for x, sg in zip(v, sgs)] for v, sc, sgs in zip(probs, scales, signs)]
+        w.add("public", "chk_public_coeffs",
+              (coq_probs(coeffs), perms, coq_num(N), list(stub.tape), tuple(cq(t) for t in tl), exp),
               dict(kind="weights", public=True, probs=[[jq(x) for x in v] for v in probs], N=jnum(N), tape=list(stub.tape),
                    perms=perms, impl=impl, exact=True, scales=scales, signs=signs, form=form),
               nontrivial=(len(items) > 1))
